@@ -143,6 +143,11 @@ def _chunk(task):
     return agg
 
 
+def out_root():
+    """Where evidence and replay files go: /verif, or SIMTT_OUT for self-test runs against scratch copies."""
+    return os.environ.get("SIMTT_OUT") or env.VERIF
+
+
 def load_known():
     p = os.path.join(env.VERIF, "known_findings.json")
     try:
@@ -175,7 +180,7 @@ def write_replay(prop, m, v, records, viol, digest, minimised_from, tests):
         "minimisation_tests": tests, "versions": env.versions(), "repo_head": env.repo_head(),
     }
     ident = hashlib.sha256(jdump([prop, viol["signature"], records], sort_keys=True).encode()).hexdigest()[:12]
-    d = os.path.join(env.VERIF, "replays")
+    d = os.path.join(out_root(), "replays")
     os.makedirs(d, exist_ok=True)
     path = os.path.join(d, "%s_%s.json" % (prop, ident))
     with open(path, "w") as f:
@@ -354,7 +359,7 @@ def run_check(prop, tier, verif_seed, workers=None, runs_override=None, wall_ove
         rr = m.replay_records(prop, recs)
         path = write_replay(prop, m, v, recs, rr["viol"], rr["digest"], len(v["records"]), ntests)
         fr = fresh_replay(path)
-        rel = os.path.relpath(path, env.VERIF)
+        rel = os.path.relpath(path, env.VERIF) if out_root() == env.VERIF else path
         if fr is None or fr.get("signature") != sig or fr.get("digest") != rr["digest"]:
             total["harness_errors"].append("replay %s did not reproduce in a fresh interpreter: %r" % (rel, fr))
             continue
@@ -420,8 +425,8 @@ def run_check(prop, tier, verif_seed, workers=None, runs_override=None, wall_ove
         "violations": len(reported) + (1 if printed else 0) * len(printed),
     }
     ev["coverage"].update(m_extra)
-    os.makedirs(os.path.join(env.VERIF, "evidence"), exist_ok=True)
-    with open(os.path.join(env.VERIF, "evidence", prop + ".json"), "w") as f:
+    os.makedirs(os.path.join(out_root(), "evidence"), exist_ok=True)
+    with open(os.path.join(out_root(), "evidence", prop + ".json"), "w") as f:
         f.write(jdump(ev, indent=1, sort_keys=True))
     print("SUMMARY property=%s runs=%d (nofault=%d fault=%d) ops=%d distinct_nontrivial=%d states=%d faults_fired=%s "
           "known=%d new=%d harness_errors=%d search=%.1fs wall=%.1fs exit=%d" % (
